@@ -54,7 +54,7 @@ theorem groupKeyOk_reasons (k : Val) (h : groupKeyOk k = true) : valReasons k = 
 
 theorem keyedLt_ok (a b : Val × Val) (ha : groupKeyOk a.1 = true) (hb : groupKeyOk b.1 = true) :
     keyedLt a b = .ok (valLt a.1 b.1) := by
-  have := keyLt_eq_spec ⟨1, a.1⟩ ⟨1, b.1⟩ ⟨rfl, groupKeyOk_reasons _ ha⟩ ⟨rfl, groupKeyOk_reasons _ hb⟩
+  have := keyLt_eq_spec ⟨1, a.1⟩ ⟨1, b.1⟩ (groupKeyOk_reasons _ ha) (groupKeyOk_reasons _ hb)
   simpa [MongoModel.keyLt, Spec.Order.keyLt, keyedLt] using this
 
 /-- inside the domain the sort of `$group` is the stable sort by the BSON order of the keys -/
